@@ -55,7 +55,7 @@ def sched_cfg_coq(cfg, ids):
         cfg["maxc"]))
 
 
-def label_coq(lab, obs, ids):
+def label_pair(lab, obs, ids):
     t = lab[0]
     if t == "W":
         dones = "[" + "; ".join("(%d, %s)" % (ids(n), "true" if ok else "false") for n, ok in lab[3]) + "]"
@@ -78,7 +78,11 @@ def label_coq(lab, obs, ids):
         o = "ONone"
     else:
         raise ValueError(lab)
-    return "(%s, %s)" % (l, o)
+    return l, o
+
+
+def label_coq(lab, obs, ids):
+    return "(%s, %s)" % label_pair(lab, obs, ids)
 
 
 HEADER = """From Coq Require Import List ZArith Bool.
